@@ -1694,9 +1694,6 @@ func ImplNames(d Dyn) []string {
 
 // switchToIf rewrites `switch [tag] { case a, b: …; default: … }` (no fallthrough, no init) into an if/else-if chain.
 func (x *Extractor) switchToIf(pkg *packages.Package, sw *ast.SwitchStmt) *ast.IfStmt {
-	if sw.Init != nil {
-		x.fail(sw.Pos(), "switch with an init statement")
-	}
 	var def *ast.CaseClause
 	var clauses []*ast.CaseClause
 	for _, st := range sw.Body.List {
@@ -1748,7 +1745,9 @@ func (x *Extractor) switchToIf(pkg *packages.Package, sw *ast.SwitchStmt) *ast.I
 	if len(clauses) == 0 {
 		x.fail(sw.Pos(), "switch without cases")
 	}
-	return build(0).(*ast.IfStmt)
+	first := build(0).(*ast.IfStmt)
+	first.Init = sw.Init // `switch v := e; v { … }`: the initialiser runs once, before the first comparison
+	return first
 }
 
 // execTypeSwitch handles `switch n := a.(type) { case T: …; default: … }` on an IR interface location.
